@@ -55,9 +55,30 @@ _FLUSH_OVERRIDES = {
         [{"op": "read", "x": "r6", "var": 0}, {"op": "read", "x": "r7", "var": 1}, {"op": "return", "e": {"var": "r6"}}]],
     "params": {"kinds": {"0": {"override": [0, 55], "probe": True}, "1": {"override": [1, 56], "raise": [1, 1003]}}},
 }
+# an override entered in the same step in which a task caught the failure of something it awaited (the step was resumed by
+# throw(), not send()), held across a suspension; a sibling that runs meanwhile reads the base value
+_OVERRIDE_IN_HANDLER = {
+    "roots": [
+        [{"op": "yield", "x": "x1", "s": {"tuple": [
+            {"new": {"task": [
+                {"op": "try", "body": [{"op": "yield", "x": "a0", "s": {"new": {"task": [{"op": "raise", "e": 5}]}}}], "x": "e1", "handler": [
+                    {"op": "with", "c": {"override": [1, 0, 160]}, "body": [
+                        {"op": "read", "x": "r0", "var": 0},
+                        {"op": "yield", "x": "a1", "s": {"new": {"item": [0, 1, {"set": 1}]}}},
+                        {"op": "read", "x": "r1", "var": 0}]}]},
+                {"op": "read", "x": "r2", "var": 0},
+                {"op": "return", "e": 0}]}},
+            {"new": {"task": [{"op": "yield", "x": "b1", "s": {"new": {"item": [1, 2, {"set": 2}]}}},
+                              {"op": "read", "x": "r3", "var": 0},
+                              {"op": "yield", "x": "b2", "s": {"new": {"item": [0, 3, {"set": 3}]}}},
+                              {"op": "read", "x": "r4", "var": 0}, {"op": "return", "e": 0}]}}]}},
+         {"op": "read", "x": "r5", "var": 0}, {"op": "return", "e": 0}],
+        [{"op": "read", "x": "r6", "var": 0}, {"op": "return", "e": 0}]],
+    "params": {"kinds": {"1": {"prio": ["const", 5, 0]}}},
+}
 _EXTRA = [(1, dict(_base, name="flush-overrides", p_flush_ctx=0.9, p_item=0.6, p_read=0.3, nkinds=2, p_flush_raise=0.25)),
           (1, dict(_base, name="pause-fails", p_nonasync=0.3, p_ctx_fault=0.5, p_with=0.45, p_item=0.6, p_read=0.25))]
 
 mach.install(globals(), "C07", ("EvRead", "EvResume", "EvPause", "EvSched"), ("C07:",), PROFILES, n_quick=300,
-             n_thorough=25000, nontrivial=_nontrivial, level="proof", corpus=[_PAUSE_FAILS_INSIDE_OVERRIDE, _FLUSH_OVERRIDES],
+             n_thorough=25000, nontrivial=_nontrivial, level="proof", corpus=[_PAUSE_FAILS_INSIDE_OVERRIDE, _FLUSH_OVERRIDES, _OVERRIDE_IN_HANDLER],
              extra_gen=mach.extra_profiles(_EXTRA, 70, 5000))
